@@ -92,6 +92,10 @@ def _ensure_tool():
     os.replace(tmp, IR2JSON)
 
 
+# flags added to EVERY compilation of this process (a whole-check build variant such as -DNDEBUG); part of every cache tag
+OVERLAY = [f for f in os.environ.get("VERIF_OVERLAY", "").split() if f]
+
+
 def include_flags(repo=None):
     repo = repo or REPO
     return ["-I" + os.path.join(repo, "include"), "-I" + repo]
@@ -144,7 +148,7 @@ def compile_unit(path, config="default", extra=(), repo=None, mem2reg=True, inli
         # (no early return when there is nothing to inline: the same function-level normalisation - jump threading of
         # short-circuit conditions - is applied to every unit, so that a unit is analysed in one form whether or not it
         # happens to contain a helper)
-        tag = hashlib.sha1((path + "|" + config + "|" + " ".join(extra) + "|inl+jt|" + ",".join(victims)).encode()).hexdigest()[:12]
+        tag = hashlib.sha1((path + "|" + config + "|" + " ".join(extra) + "|" + " ".join(OVERLAY) + "|inl+jt|" + ",".join(victims)).encode()).hexdigest()[:12]
         stem = os.path.join(wd, os.path.basename(path).replace(".", "_") + "_" + config + "_" + tag)
         js = stem + ".json"
         if os.path.exists(js):
@@ -161,12 +165,12 @@ def compile_unit(path, config="default", extra=(), repo=None, mem2reg=True, inli
         if r.returncode != 0:
             raise ir.AnalysisError("ir2json failed on %s: %s" % (path, r.stderr[-2000:]))
         return js
-    tag = hashlib.sha1((path + "|" + config + "|" + " ".join(extra)).encode()).hexdigest()[:12]
+    tag = hashlib.sha1((path + "|" + config + "|" + " ".join(extra) + "|" + " ".join(OVERLAY)).encode()).hexdigest()[:12]
     stem = os.path.join(wd, os.path.basename(path).replace(".", "_") + "_" + config + "_" + tag)
     ll, ll2, js = stem + ".ll", stem + ".m2r.ll", stem + ".json"
     if os.path.exists(js):
         return js
-    cmd = ["clang"] + BASE_FLAGS + include_flags(repo) + CONFIGS[config] + list(extra) + \
+    cmd = ["clang"] + BASE_FLAGS + include_flags(repo) + CONFIGS[config] + list(extra) + OVERLAY + \
           ["-S", "-emit-llvm", path, "-o", ll]
     r = subprocess.run(cmd, capture_output=True, text=True)
     if r.returncode != 0:
